@@ -311,8 +311,11 @@ def main():
         # Extract command based on mode
         # Cursor: {"command": "...", "cwd": "..."}
         # Claude/Gemini: {"tool_name": "...", "tool_input": {"command": "..."}}
-        if MODE == "cursor":
-            # Cursor sends command directly (beforeShellExecution hook)
+        if "tool_name" not in input_data and (
+            MODE == "cursor" or "command" in input_data
+        ):
+            # Cursor sends command directly (beforeShellExecution hook); the shape of
+            # the input, not a forced mode, says where the command is
             command = input_data.get("command", "")
             tool_name = None
         else:
